@@ -1,10 +1,12 @@
 #!/usr/bin/env python3
-"""usage: import_seed.py <PROP> <A|B> <needs> <caught_by (comma list or 'none')> [note]
+"""usage: [SEED_TAG=r2] import_seed.py <PROP> <A|B|C|D> <needs> <caught_by (comma list or 'none')> [note]
 Copies a confirmed seeded change from /tmp/seed/<PROP>/out/<X> to /verif/seeded/<PROP>-<X>/ and writes meta.json."""
 import json, os, shutil, sys
 prop, x, needs, caught = sys.argv[1:5]
 note = sys.argv[5] if len(sys.argv) > 5 else ""
-src = f"/tmp/seed/{prop}/out/{x}"
+# later rounds live in /tmp/seed/<PROP>r<k>/out/<X>
+tag = os.environ.get("SEED_TAG", "")
+src = f"/tmp/seed/{prop}{tag}/out/{x}"
 dst = f"/verif/seeded/{prop}-{x}"
 os.makedirs(dst, exist_ok=True)
 for f in os.listdir(src):
@@ -13,7 +15,7 @@ for f in os.listdir(src):
 conf = json.load(open(os.path.join(src, "confirm.json")))
 meta = {
     "property": prop,
-    "breaks": open(f"/tmp/seed/{prop}/property.txt").read().split("\n")[0].replace("Title: ", "") if os.path.exists(f"/tmp/seed/{prop}/property.txt") else prop,
+    "breaks": open(f"/tmp/seed/{prop}{tag}/property.txt").read().split("\n")[0].replace("Title: ", "") if os.path.exists(f"/tmp/seed/{prop}{tag}/property.txt") else prop,
     "needs_to_manifest": needs,
     "origin": "independent sub-agent given only the property text and a scratch worktree",
     "confirmed": {
